@@ -42,10 +42,12 @@ TRUSTED = [
     "message.packet_id=None or flip the flags by hand, handle_region_changed/handle_circuit_created hooks "
     "(AgentMovementComplete / UseCircuitCode packets), UDP-banned message names, exceptions raised by a "
     "truthiness test of a hook's return value",
-    "partial (full-strength statement refuted on the current code, see Props/C07.v): C07_exactly_once_partial excludes an "
-    "RLV owner-say with an empty command list (C07_exactly_once_rlv_empty_refuted); "
-    "C07_proxy_never_trips_own_guard_partial and C07_logger_runs_partial exclude command-channel chat "
-    "(C07_proxy_guard_refuted: unguarded drop_message in AddonManager.handle_lludp_message)",
+    "repaired in /repo and followed by the model: d9b7ff1 (command-channel drop only if not finalized), 40d86e5 "
+    "(RLV chat with an empty command list is not claimed), 03e3597 (tail drop only if not finalized); the old failing "
+    "inputs are corpus/C07/01-04 and the oracle classes command-channel-drop-unguarded / "
+    "rlv-empty-command-list-swallowed / exception-escapes-handle-proxied-packet would flag them again",
+    "noted, not repaired, not a violation of C07's clauses: two handled RLV commands in one chat make the proxy call "
+    "drop_message twice inside its own try/except (C07_rlv_double_drop_trips_guard)",
     "Event.notify evaluates a subscriber's predicate outside its try/except: a raising predicate aborts the "
     "remaining subscribers of that MessageHandler for this message (modelled as coded; isolation is proved for "
     "hook/subscriber bodies, and shown not to extend to predicates: C07_isolation_predicate_refuted)",
@@ -912,7 +914,7 @@ def _correspond(ctx):
             if i_line.startswith("EXC:"):
                 continue
         # the model's "unclaimed" predicate vs the oracle's
-        want = " ".join("1" if (msg_unclaimed(m) and not (m["kind"] == "R" and m.get("ncmd", 0) == 0)) else "0" for m in c["msgs"])
+        want = " ".join("1" if msg_unclaimed(m) else "0" for m in c["msgs"])
         if m_uncl != want:
             res.disagreements.append({"case": c, "line": line, "what": "cfg_unclaimed", "impl": want, "model": m_uncl})
         if has_raise(c):
